@@ -444,6 +444,17 @@ def check_C15(ctx):
     # text and tree are compared as character/XML content, not as internal chunking (ConvergedN / RefEquivN)
     viols += sim_families(ctx, [f for f in fams if f["name"].startswith("undo1p-")],
                           {"ConvergedN", "RefEquivN", "SyncNeverFails", "UndoRedoNeverFails", "CloneEqRoot", "LogReplayable"}, n)
+    # small-scope exhaustive: every program of two edits with every well-nested undo/redo sequence of length <= 4 in and after it
+    # on one client, then the quiescent syncs: whatever undo/redo did (also when it did nothing) must reach the peer
+    total = 0
+    for typ, alpha, extra, cap in [("arr", "OpsArrNoMove", ARR, 1200), ("cnt", "OpsCnt", dict(kinds=["n"], init=[]), 400), ("txt", "OpsTxtNoStyle", TXT, 1200)]:
+        steps = generate(ctx, "gen_pairs.cfg", overrides={"Alphabet": alpha, "Editors": '{"c1"}', "MaxEdits": "2", "MaxSyncs": "0", "Feat": '{"undo"}',
+                                                          "MaxUndo": "4", "InitEdits": str(1 + len(extra["init"]))})
+        total += len(steps)
+        steps = sample(ctx, steps, cap if quick else None)
+        behs = [wrap(st, "exh-prop-%s-%d" % (typ, i), nclients=2, kinds=extra["kinds"], init=extra["init"], family="exh-prop-" + typ) for i, st in enumerate(steps)]
+        viols += run_family(ctx, "exh-prop-" + typ, behs, {"SyncNeverFails", "ConvergedN", "RefEquivN", "UndoRedoNeverFails", "LogReplayable", "CloneEqRoot"})
+    ctx.samples.append({"family": "exh-prop", "behaviours_enumerated_by_tlc": total})
     if ctx.counters.get("undos", 0) == 0:
         raise Infra("vacuous: no undo executed")
     fresh, known = split_known(ctx, viols)
@@ -481,6 +492,8 @@ def check_C09(ctx):
                                 ("mix", "OpsMix2", {}, 40)]:
         fams.append(dict(name="enc-" + nm, alphabet=alpha, clients="Seq3", feat='{"idle", "lateattach", "build"}', late='{"c3"}',
                          weight=w, maxedits=4, threshold=2, interval=2, guards=["KF-ARRAYSET-GC-LEAK"], **extra))
+    fams.append(dict(name="enc-dedup", alphabet="OpsDedup", clients="Seq3", feat='{"idle", "lateattach", "build"}', late='{"c3"}', weight=2, maxedits=4,
+                     threshold=2, interval=2, kinds=["u"], init=[]))
     fams.append(dict(name="enc-undo-arr", alphabet="OpsArrNoMove", clients="Seq2", editors=E2, feat='{"idle", "undo"}', maxundo=3, maxedits=3, weight=4, **ARR))
     # reverse operations only undo/redo produces (text RemoveStyle, tree style restore, set-and-remove) through the same round trips
     viols = sim_families(ctx, fams, C09_TAGS, n)
@@ -516,9 +529,20 @@ def check_C18(ctx):
                                 ("mix", "OpsMix2", {}, 40)]:
         fams.append(dict(name="yson-" + nm, alphabet=alpha, clients="Seq3", feat=feat, late='{"c3"}', maxsess=3, maxcompact=2,
                          weight=w, maxedits=3, **extra))
+    fams.append(dict(name="yson-dedup", alphabet="OpsDedup", clients="Seq3", feat=feat, late='{"c3"}', maxsess=3, maxcompact=2, weight=2, maxedits=3,
+                     kinds=["u"], init=[]))
     viols = sim_families(ctx, fams, C18_TAGS, n)
     if ctx.counters.get("compactions_ok", 0) == 0:
         raise Infra("vacuous: no compaction succeeded")
+    # revisions: the content a restore writes is the content at revision creation, for every container type
+    rfams = []
+    for nm, alpha, extra, w in [("arr", "OpsArr", ARR, 10), ("txt", "OpsTxt", TXT, 8), ("nest", "OpsNest", OBJ, 6),
+                                ("cnt", "OpsCntWrap", dict(kinds=["n"], init=[]), 3), ("treet", "OpsTreeText", TREE, 10), ("treee", "OpsTreeElem", TREE, 6),
+                                ("mix", "OpsMix2", {}, 40)]:
+        rfams.append(dict(name="rev-" + nm, alphabet=alpha, clients="Seq2", editors=E2, feat='{"idle", "revision"}', weight=w, maxedits=4, maxsyncs=6, **extra))
+    viols += sim_families(ctx, rfams, {"RestoreReturnsContent", "RevisionNeverFails", "RestoreNeverFails", "SyncNeverFails", "LogReplayable"}, n)
+    if ctx.counters.get("restores_ok", 0) == 0:
+        raise Infra("vacuous: no revision was restored")
     # the literal half: every value of the grammar Yson.tla (strings and keys that look like syntax included)
     import subprocess
     vals = generate(ctx, "yson_gen.cfg", module="Yson", workers=1)
@@ -579,6 +603,18 @@ def check_C14(ctx):
     viols += sim_families(ctx, softfams, {"UndoRedoNeverFails", "CloneEqRoot", "SyncNeverFails", "LogReplayable"}, n)
     # approximate kinds (styles, moves, set-by-index): never fail, never corrupt, still sync and converge - no exactness
     viols += sim_families(ctx, approx, {"UndoRedoNeverFails", "CloneEqRoot", "SyncNeverFails", "LogReplayable", "Converged", "RefEquiv"}, n)
+    # small-scope exhaustive: every program of two edits with every well-nested undo/redo sequence of length <= 4 in and
+    # after it (no sync: one replica), per exact container type - the depth-two redo cases random histories rarely hit
+    total = 0
+    for typ, alpha, extra, cap in [("arr", "OpsArrNoMove", ARR, 1200), ("cnt", "OpsCntWrap", dict(kinds=["n"], init=[]), 400),
+                                   ("obj", "OpsObj", OBJ, 1200), ("txt", "OpsTxtNoStyle", TXT, 1200)]:
+        steps = generate(ctx, "gen_pairs.cfg", overrides={"Alphabet": alpha, "Editors": '{"c1"}', "MaxEdits": "2", "MaxSyncs": "0", "Feat": '{"undo"}',
+                                                          "MaxUndo": "4", "InitEdits": str(1 + len(extra["init"]))})
+        total += len(steps)
+        steps = sample(ctx, steps, cap if quick else None)
+        behs = [wrap(st, "exh-undo-%s-%d" % (typ, i), nclients=2, kinds=extra["kinds"], init=extra["init"], family="exh-undo-" + typ) for i, st in enumerate(steps)]
+        viols += run_family(ctx, "exh-undo-" + typ, behs, {"UndoExact", "RedoExact", "UndoRedoNeverFails", "CloneEqRoot"})
+    ctx.samples.append({"family": "exh-undo", "behaviours_enumerated_by_tlc": total})
     if ctx.counters.get("undos", 0) == 0:
         raise Infra("vacuous: no undo executed")
     fresh, known = split_known(ctx, viols)
@@ -810,7 +846,13 @@ def check_C20(ctx):
                  feat='{"idle", "build", "evict", "lateattach"}', weight=40, maxedits=3),
             dict(name="cache-nest", alphabet="OpsNest", clients="Seq3", threshold=1, interval=3, late='{"c3"}',
                  feat='{"idle", "build", "evict", "lateattach"}', weight=6, maxedits=3, **OBJ)]
-    viols += sim_families(ctx, fams, {"BuildEquiv", "BuildNeverFails"}, 120 if quick else 1500)
+    # ... and across a compaction: the cache entry of the old generation must not survive the rewrite of the log
+    fams.append(dict(name="cache-compact", alphabet="OpsCnt", clients="Seq3", threshold=2, interval=2, late='{"c3"}',
+                     feat='{"idle", "build", "compact", "force", "lateattach", "detach", "reattach"}', maxsess=3, maxcompact=2, weight=2, maxedits=5, maxsyncs=10,
+                     kinds=["n"], init=[]))
+    fams.append(dict(name="cache-compact-obj", alphabet="OpsObj", clients="Seq3", threshold=2, interval=2, late='{"c3"}',
+                     feat='{"idle", "build", "compact", "force", "lateattach", "detach", "reattach"}', maxsess=3, maxcompact=2, weight=4, maxedits=5, maxsyncs=10, **OBJ))
+    viols += sim_families(ctx, fams, {"BuildEquiv", "BuildNeverFails", "RefEquiv", "SyncNeverFails"}, 120 if quick else 1500)
     if ctx.counters.get("builds", 0) == 0:
         raise Infra("vacuous: no rebuild observed")
     fresh, known = split_known(ctx, viols)
